@@ -160,7 +160,8 @@ def main():
         # ---- (b) self-test matrix
         patches = [(p, 'mutant') for p in sorted(glob.glob(os.path.join(V, 'selftest', 'mutants', pid + '_*.diff')))]
         patches += [(p, 'seeded') for p in sorted(glob.glob(os.path.join(V, 'seeded', pid + '_*', 'patch.diff')))]
-        patches += [(p, 'benign') for p in sorted(glob.glob(os.path.join(V, 'selftest', 'benign', pid + '_*.diff')) + glob.glob(os.path.join(V, 'selftest', 'benign', 'ALL_*.diff')))]
+        # every behaviour-preserving variant, whichever property it was written for, must leave THIS property's result unchanged
+        patches += [(p, 'benign') for p in sorted(glob.glob(os.path.join(V, 'selftest', 'benign', '*.diff')))]
         nworkers = min(8, max(1, len(patches)))
         tdirs = []
         src_t = os.environ.get('MCMC_TARGET_DIR', os.path.join(V, '.cache', 'target'))
